@@ -97,6 +97,15 @@ def _assigned_names(nodes):
     return out
 
 
+def _loaded_names(nodes):
+    out = []
+    for n in nodes:
+        for x in ast.walk(n):
+            if isinstance(x, ast.Name) and isinstance(x.ctx, ast.Load) and x.id not in out:
+                out.append(x.id)
+    return out
+
+
 class _BreakRewriter(ast.NodeTransformer):
     """inside a cut loop body: `break` of *this* loop sets the flag first"""
 
@@ -268,8 +277,9 @@ class Transformer(ast.NodeTransformer):
         L, IT, BRK = "VC_L%d" % n, "VC_it%d" % n, "VC_brk%d" % n
         names = _assigned_names(orig.body + [ast.Expr(orig.target)])
         names = [x for x in names if not x.startswith("VC_")]
+        loaded = [x for x in _loaded_names(orig.body) if x not in names]
         node.iter = _name(IT)
-        cut = self._cut(L, BRK, names, cut_body, cut_else,
+        cut = self._cut(L, BRK, names, loaded, cut_body, cut_else,
                         pre=[ast.Assign(targets=[self.visit(copy.deepcopy(orig.target))],
                                         value=ast.Call(func=ast.Attribute(value=_name(L), attr="element", ctx=ast.Load()),
                                                        args=[], keywords=[]))],
@@ -302,7 +312,8 @@ class Transformer(ast.NodeTransformer):
         n = self.tmp
         L, BRK = "VC_L%d" % n, "VC_brk%d" % n
         names = [x for x in _assigned_names(orig.body) if not x.startswith("VC_")]
-        cut = self._cut(L, BRK, names, cut_body, cut_else, pre=[], test=self.visit(copy.deepcopy(orig.test)))
+        loaded = [x for x in _loaded_names(orig.body + [ast.Expr(orig.test)]) if x not in names]
+        cut = self._cut(L, BRK, names, loaded, cut_body, cut_else, pre=[], test=self.visit(copy.deepcopy(orig.test)))
         stmts = [
             ast.Assign(targets=[_name(L, ast.Store())],
                        value=_call("VC_loop", ast.Constant(self.modname), ast.Constant(qual), ast.Constant(k),
@@ -312,15 +323,17 @@ class Transformer(ast.NodeTransformer):
         ]
         return [ast.fix_missing_locations(ast.copy_location(s, orig)) for s in stmts]
 
-    def _cut(self, L, BRK, names, body, orelse, pre, test):
+    def _cut(self, L, BRK, names, loaded, body, orelse, pre, test):
         def m(attr, *args):
             return ast.Call(func=ast.Attribute(value=_name(L), attr=attr, ctx=ast.Load()), args=list(args), keywords=[])
-        stmts = [ast.Expr(m("init", _call("locals")))]
-        if names:
-            tgt = ast.Tuple(elts=[_name(x, ast.Store()) for x in names], ctx=ast.Store())
-            stmts.append(ast.Assign(
-                targets=[tgt],
-                value=m("havoc", ast.Tuple(elts=[ast.Constant(x) for x in names], ctx=ast.Load()), _call("locals"))))
+        stmts = [ast.Expr(m("init", _call("locals"))),
+                 ast.Expr(m("check_frame", ast.Tuple(elts=[ast.Constant(x) for x in loaded], ctx=ast.Load()),
+                            _call("locals"), _call("globals")))]
+        names = list(names) + ["VC_dummy"]
+        tgt = ast.Tuple(elts=[_name(x, ast.Store()) for x in names], ctx=ast.Store())
+        stmts.append(ast.Assign(
+            targets=[tgt],
+            value=m("havoc", ast.Tuple(elts=[ast.Constant(x) for x in names], ctx=ast.Load()), _call("locals"))))
         stmts.append(ast.Expr(m("assume_inv", _call("locals"))))
         body = _BreakRewriter(BRK).visit(ast.Module(body=body, type_ignores=[])).body
         once = ast.For(target=_name("VC_once", ast.Store()),
@@ -375,6 +388,7 @@ class LoopDriver:
         self.i = None
         self.n = None
         self.v0 = None
+        self.inplace = []
         c = core.cur()
         if iterable is not None:
             n = models.m_len(iterable)
@@ -397,16 +411,42 @@ class LoopDriver:
             c.add(i <= core.toint(self.n))
             self.i = core.SInt(i)
         ns = self._ns(loc, self.i)
+        for mk in self.inplace:
+            mk(ns)
         out = []
         for x in names:
             mk = self.spec.havoc.get(x)
-            if mk is None:
+            if x == "VC_dummy":
+                out.append(None)
+            elif mk is None:
                 out.append(Poison(x))
             elif mk == "keep":
                 out.append(loc.get(x, Poison(x)))
             else:
                 out.append(mk(ns))
         return tuple(out)
+
+    def check_frame(self, loaded, loc, glob):
+        """every mutable object that the loop body can reach through a name it does not assign must
+        be described by the contract (havoc maker, or an explicit 'keep' = not mutated by the loop)"""
+        for x in loaded:
+            if x in self.spec.havoc:
+                v = self.spec.havoc[x]
+                if v == "keep":
+                    self.c.run.kept.add("%s keeps %s" % (self.spec.name, x))
+                else:
+                    self.inplace.append(v)     # in-place havoc of an object that is not rebound
+                continue
+            if x in loc:
+                val = loc[x]
+            elif x in glob:
+                continue        # module globals: functions, classes, constants (frame obligation of C14 checks stores)
+            else:
+                continue
+            if _immutable(val):
+                continue
+            raise Undecided("loop contract %s does not describe mutable object %r used in the loop body"
+                            % (self.spec.name, x))
 
     def assume_inv(self, loc):
         for label, cond in self.spec.inv(self._ns(loc, self.i)):
@@ -436,6 +476,22 @@ class LoopDriver:
         self.c.cover("%s/%s.exit" % (self.prefix, self.spec.name))
         if self.spec.on_exit:
             self.spec.on_exit(self._ns(loc, self.i))
+
+
+def _immutable(v, depth=0):
+    import types as _ty
+    if v is None or isinstance(v, (int, float, str, bytes, bool, frozenset, range, type, _ty.FunctionType,
+                                   _ty.BuiltinFunctionType, _ty.MethodType, _ty.ModuleType, core.SInt,
+                                   core.SBV, core.SBool)):
+        return True
+    from .rope import Rope
+    if isinstance(v, Rope) or getattr(v, "_pyvc_immutable", False):
+        return True
+    if isinstance(v, tuple) and depth < 4:
+        return all(_immutable(x, depth + 1) for x in v)
+    if callable(v) and not hasattr(v, "__dict__"):
+        return True
+    return False
 
 
 PREFIX = ["?"]
